@@ -7,10 +7,11 @@ props = [json.loads(l) for l in open(os.path.join(root, 'properties.jsonl')) if 
 ids = [p['id'] for p in props]
 checks = []
 claimed = set()
+vetted = set(open(os.path.join(root, 'bin', 'claimed.txt')).read().split())
 for mf in sorted(glob.glob(os.path.join(root, 'harness', 'c*', 'meta.json'))):
     m = json.load(open(mf))
     pid = m['property_id']
-    if m.get('disabled'):
+    if m.get('disabled') or pid not in vetted:
         continue
     claimed.add(pid)
     c = {
